@@ -2,6 +2,7 @@ package rules
 
 import (
 	"fmt"
+	"strings"
 
 	"golang.org/x/tools/go/ssa"
 
@@ -115,6 +116,39 @@ func runC46(c *core.Ctx) {
 		Target: func(in ssa.Instruction, _ *ssa.BasicBlock) bool { return in == mark[0] }}
 	esc, _ := q.Escape()
 	c.Check(esc == nil, "C46/metadata-written", "historyRepository.recordMiniblock/mark-after-put", mark[0].Pos(), "the entry is marked as recorded only after the metadata was written", "the entry can be marked as recorded before/without the metadata write")
+	// the epoch index of the miniblock is written before its metadata: the notification consumer (another mutex) reads
+	// index-then-metadata, so with the opposite order it can patch the record of a previous epoch and drop the notification
+	qo := core.PathQ{Fn: rec, Via: func(in ssa.Instruction) bool {
+		cc := core.CallOf(in)
+		return cc != nil && core.CallDesc(cc).Name == "saveEpochByHash"
+	}, Target: func(in ssa.Instruction, _ *ssa.BasicBlock) bool { return core.IsCall(in, pkg, "historyRepository", "putMiniblockMetadata") }}
+	escO, _ := qo.Escape()
+	c.Check(escO == nil, "C46/metadata-written", "historyRepository.recordMiniblock/index-before-metadata", rec.Pos(), "saveEpochByHash(miniblock) precedes putMiniblockMetadata",
+		"the miniblock metadata can be written before its epoch index entry: a concurrent notarization notification looks the miniblock up in the old epoch, patches the orphaned record and is then discarded")
+	// every transaction of the miniblock is (re)pointed at this miniblock: the loop over TxHashes puts each one unconditionally
+	var txLoop *core.Loop
+	for _, l := range core.Loops(rec) {
+		if src := l.RangeSource(); src != nil && strings.HasSuffix(core.ExprKey(src), ".TxHashes") {
+			txLoop = l
+		}
+	}
+	if txLoop == nil {
+		c.Fail("C46/metadata-written", "historyRepository.recordMiniblock/tx-index", rec.Pos(), "no loop over the miniblock's TxHashes")
+	} else {
+		var body *ssa.BasicBlock
+		for _, s2 := range txLoop.Header.Succs {
+			if txLoop.Body[s2] {
+				body = s2
+			}
+		}
+		qt := core.PathQ{Fn: rec, FromBlk: body, Via: func(in ssa.Instruction) bool {
+			cc := core.CallOf(in)
+			return cc != nil && isInvoke(cc, "Put") && isRecvField(rec, cc.Value, "miniblockHashByTxHashIndex")
+		}, Target: func(in ssa.Instruction, _ *ssa.BasicBlock) bool { return in == txLoop.Header.Instrs[0] }}
+		escT, pt := qt.Escape()
+		c.Check(escT == nil, "C46/metadata-written", "historyRepository.recordMiniblock/tx-index", rec.Pos(), "every transaction hash of the miniblock is stored in the tx→miniblock index",
+			"a transaction of the recorded miniblock can be left pointing at another (earlier) miniblock ("+c.P.PathString(pt)+"): lookups by tx hash report the dropped block")
+	}
 	// the metadata records the containing block's hash
 	okHH := false
 	core.Instrs(rec, func(in ssa.Instruction) {
